@@ -82,7 +82,10 @@ fn datetime_txt(r: &mut Rng, kind: u8) -> String {
             if r.chance(1, 3) { s.push(if r.chance(5, 6) { 'Z' } else { 'z' }); } else { let sub = kind != 2 || r.chance(1, 6); let o = offset_txt(r, sub); s += &o; off = Some(o); }
         }
     }
-    let m = off.as_deref().filter(|o| o.len() == 6);
+    // the bracketed zone repeats the offset; for an offset with a seconds part it repeats its hours and minutes half of the time
+    // (then the string is right only if the seconds part is zero)
+    let cut = r.chance(1, 2);
+    let m = off.as_deref().and_then(|o| if o.len() == 6 { Some(o) } else if cut && o.len() > 6 && o.as_bytes()[3] == b':' { Some(&o[..6]) } else { None });
     s + &annots_txt(r, kind == 2, m)
 }
 fn dur_txt(r: &mut Rng) -> String {
